@@ -155,7 +155,10 @@ pub mod rt {
             self.cv.notify_all();
         }
 
-        fn maybe_decide(&self, st: &mut State) {
+        /// Decides the next grant if a decision is due.  `me` is the calling thread: parked
+        /// waiters are only woken when the baton goes to a *different* thread, so a worker that
+        /// keeps running costs one mutex round-trip per claim instead of a wake-up storm.
+        fn maybe_decide(&self, st: &mut State, me: u64) {
             if st.error.is_some() || st.baton.is_some() {
                 return;
             }
@@ -194,7 +197,9 @@ pub mod rt {
             }
             st.grants.push(enabled[choice]);
             st.baton = Some(parked[choice]);
-            self.cv.notify_all();
+            if parked[choice] != me {
+                self.cv.notify_all();
+            }
         }
 
         fn park_and_wait(self: &Arc<Self>) {
@@ -219,7 +224,7 @@ pub mod rt {
                     });
                 });
             }
-            self.maybe_decide(&mut st);
+            self.maybe_decide(&mut st, tid);
             loop {
                 if st.error.is_some() {
                     return;
@@ -249,7 +254,8 @@ pub mod rt {
             if let Some(e) = st.threads.iter_mut().find(|(t, _)| *t == tid) {
                 e.1 = Status::Done;
             }
-            self.maybe_decide(&mut st);
+            // `u64::MAX` is never a worker id: an exiting thread always wakes the grantee.
+            self.maybe_decide(&mut st, u64::MAX);
         }
     }
 
